@@ -297,6 +297,18 @@ pub fn contexts(tier: Tier) -> Vec<Ctx> {
                 r: None,
             });
         }
+        // names shared by a constant, parameters and locals of different functions: a callee sees
+        // the constants and its own parameters, never a name of its callers
+        for (cn, e) in [
+            ("clash_f(n,m)", call("clash_f", vec![n(), m()])),
+            ("clash_f(m,n)^kq", bin(BinOp::BitXor, call("clash_f", vec![m(), n()]), var("kq"))),
+            ("clash_mut(n,m)", call("clash_mut", vec![n(), m()])),
+            ("clash_f(clash_g(n),m)", call("clash_f", vec![call("clash_g", vec![n()]), m()])),
+            ("{let kq=n;clash_g(m)^kq}", block(vec![let_("kq", n()), expr_stmt(bin(BinOp::BitXor, call("clash_g", vec![m()]), var("kq")))])),
+            ("clash_local(n)", call("clash_local", vec![n()])),
+        ] {
+            out.push(r_is(format!("{cn}"), e, u8t.clone()));
+        }
         // zero-width values flowing through bindings, tuples and calls
         out.push(r_is("let u=();(u,n).1".into(), block(vec![let_("u", tup(vec![])), expr_stmt(tupf(tup(vec![var("u"), n()]), 1))]), u8t.clone()));
         out.push(r_is("[n;0] then n".into(), block(vec![let_("z", ex(ExprKind::ArrRep(Box::new(n()), 0))), let_("n", u8l(4)), expr_stmt(bin(BinOp::BitXor, n(), m()))]), u8t.clone()));
@@ -364,6 +376,39 @@ pub fn skeleton(ctx: &Ctx) -> Program {
     }
     if text.contains("\"firstx\"") {
         p.fns.push(FnDef { is_pub: false, name: "firstx".into(), params: vec![p1("v"), p1("w")], ret: Ty::u8(), body: vec![expr_stmt(var("v"))] });
+    }
+    if text.contains("clash_") {
+        // const kq = 7; clash_g reads the constant; clash_f / clash_mut have a PARAMETER named kq and
+        // call clash_g; clash_local has a LOCAL named kq and calls clash_g
+        p.consts.push(ConstDef { name: "kq".into(), ty: Ty::u8(), value: Val::u8(7) });
+        p.fns.push(FnDef { is_pub: false, name: "clash_g".into(), params: vec![p1("v")], ret: Ty::u8(), body: vec![expr_stmt(bin(BinOp::BitXor, var("v"), var("kq")))] });
+        if text.contains("\"clash_f\"") {
+        p.fns.push(FnDef {
+            is_pub: false,
+            name: "clash_f".into(),
+            params: vec![p1("kq"), p1("w")],
+            ret: Ty::u8(),
+            body: vec![expr_stmt(bin(BinOp::BitXor, bin(BinOp::BitAnd, call("clash_g", vec![var("w")]), u8l(127)), bin(BinOp::BitAnd, var("kq"), u8l(240))))],
+        });
+        }
+        if text.contains("\"clash_mut\"") {
+        p.fns.push(FnDef {
+            is_pub: false,
+            name: "clash_mut".into(),
+            params: vec![Param { mutable: true, name: "kq".into(), ty: Ty::u8() }, p1("w")],
+            ret: Ty::u8(),
+            body: vec![assign("kq", vec![], bin(BinOp::BitXor, var("kq"), u8l(85))), let_("r", call("clash_g", vec![var("w")])), expr_stmt(bin(BinOp::BitXor, var("r"), bin(BinOp::BitAnd, var("kq"), u8l(15))))],
+        });
+        }
+        if text.contains("\"clash_local\"") {
+        p.fns.push(FnDef {
+            is_pub: false,
+            name: "clash_local".into(),
+            params: vec![p1("v")],
+            ret: Ty::u8(),
+            body: vec![let_mut("kq", bin(BinOp::BitXor, var("v"), u8l(1))), assign("kq", vec![], bin(BinOp::BitXor, var("kq"), u8l(2))), expr_stmt(bin(BinOp::BitXor, call("clash_g", vec![var("v")]), bin(BinOp::BitAnd, var("kq"), u8l(51))))],
+        });
+        }
     }
     if text.contains("\"loopx\"") {
         // a helper whose body shadows its parameter inside a block that also holds an empty loop
